@@ -1224,6 +1224,12 @@ impl Property for C10 {
                     .filter(|op| !matches!(op, Op::Pass | Op::Wait { .. }))
                     .map(|op| op_kind(op).to_owned())
                     .collect();
+                let uses_convert = scn.entries.iter().any(
+                    |e| matches!(&e.body, Body::Text(t) if t.contains("\"rule\":\"convert_require\"")),
+                );
+                if uses_convert {
+                    kinds.push("ConvertRequire".to_owned());
+                }
                 if scn.opts.include_deps.is_some() {
                     // a finding that needs the harness rule never matches a scenario
                     // without it, and the other way round
